@@ -47,6 +47,7 @@ def run(ctx: Context) -> None:
         from . import infra as _infra913
         _infra913.mesh_fill_value(ctx, 'R09.13')
         _infra913.mesh_table_dimension_tests(ctx, 'R09.13')
+        _infra913.ugrid_inventory(ctx, 'R09.13')
     ctx.rule('R09.12', "update_connectivity refuses a table only when it does not have the primary dimension at all (a table stored the other way round is transposed, not refused)", floor=1)
     with ctx.section('R09.12'):
         from . import infra as _infra912
@@ -488,6 +489,8 @@ _U = 'src/emsarray/conventions/ugrid.py'
 _G = 'src/emsarray/conventions/grid.py'
 _B = 'src/emsarray/conventions/_base.py'
 VARIANTS = [
+    V('C09', 'edge-node-table-not-geometry', 'src/emsarray/conventions/ugrid.py', "        if topology.has_valid_edge_node_connectivity:\n            names.append(topology.edge_node_connectivity.name)\n", "", 'R09.13'),
+    V('C09', 'face-x-listed-when-absent', 'src/emsarray/conventions/ugrid.py', "        if topology.face_x is not None:\n            names.append(topology.face_x.name)", "        if topology.face_x is None:\n            names.append(topology.face_x.name)", 'R09.13'),
     V('C09', 'fill-value-among-the-indexes', 'src/emsarray/conventions/ugrid.py', "        return int('9' * (len(str(max_count)) + 1))", "        return int('9' * (len(str(max_count)) - 1))", 'R09.13'),
     V('C09', 'benign-fill-value-one-digit-more', 'src/emsarray/conventions/ugrid.py', "        return int('9' * (len(str(max_count)) + 1))", "        return int('9' * (len(str(max_count)) + 2))", None),
     V('C09', 'face-edge-primary-swapped', _U, "                new_face_indexes, new_edge_indexes,\n                primary_dimension=topology.face_dimension, fill_value=new_fill_value))", "                new_face_indexes, new_edge_indexes,\n                primary_dimension=topology.edge_dimension, fill_value=new_fill_value))", 'R09.1'),
